@@ -130,12 +130,17 @@ def run(ctx, chk, tier):
                           "exactly {any(genuines<0)|any(genuines>1), any(frauds<0)|any(frauds>1)}", ctx.where(initq))
     # ---- R19.3 no query overrides
     allowed = {"__init__", "genuines", "frauds", "from_labels"}
-    extra = sorted(set(ci.methods) - allowed)
+    sci_ = ctx.db.cls(SCORES)
+    inherited = set()
+    for b in sci_.mro():
+        inherited |= set(b.methods)
+    # an override is a method of the same name as an inherited query; new private helpers are not overrides
+    extra = sorted((set(ci.methods) - allowed) & inherited)
     base_ok = [b.qualname if hasattr(b, "qualname") else str(b) for b in ci.bases] == [SCORES]
     if not extra and base_ok:
-        chk.hold("R19.3", "no-overrides", "FraudScores(Scores) defines only %s" % sorted(ci.methods), nontrivial=False)
+        chk.hold("R19.3", "no-overrides", "FraudScores(Scores) defines %s: none overrides an inherited query" % sorted(ci.methods), nontrivial=False)
     else:
-        chk.violation("R19.3", FRAUD, "overrides", "extra methods %s, bases %s" % (extra, [str(b) for b in ci.bases]), "only __init__, the two alias properties and from_labels; base Scores", FRAUD)
+        chk.violation("R19.3", FRAUD, "overrides", "extra methods %s, bases %s" % (extra, [str(b) for b in ci.bases]), "no inherited query overridden (only __init__, the alias properties, from_labels and new helpers); base Scores", FRAUD)
     for prop, attr in (("genuines", "pos"), ("frauds", "neg")):
         o = Obj(ci)
         X = Sym("X_" + attr, ("attr", "array"))
@@ -181,9 +186,6 @@ def alias_setters(ctx, chk, ci):
     """R19.6 writing through an alias reaches the aliased attribute: after `obj.genuines = v`, obj.pos is v (and nothing else changed); same for frauds/neg."""
     ev = ctx.ev
     for prop, attr, other in (("genuines", "pos", "neg"), ("frauds", "neg", "pos")):
-        if ci.find_setter(prop) is None:
-            chk.hold("R19.6", "setter:" + prop, "%s is read-only" % prop, nontrivial=False)
-            continue
         X, Y, V_ = Sym("X_" + attr, ("attr", "array")), Sym("Y_" + other, ("attr", "array")), Sym("new_value", ("param", "array", "notnone"))
         holder = {}
 
@@ -196,6 +198,9 @@ def alias_setters(ctx, chk, ci):
         outs = ctx.explore(thunk, chk)
         r = returns(outs)
         q = FRAUD + "." + prop
+        if not r and outs and all(o.kind == "raise" and isinstance(o.value, App) and o.value.fn == "AttributeError" for o in outs):
+            chk.hold("R19.6", "setter:" + prop, "%s is read-only" % prop, nontrivial=False)
+            continue
         if len(r) != 1 or not isinstance(r[0].value, Obj):
             chk.unknown("R19.6", "setter %s: %d return paths" % (prop, len(r)))
             continue
